@@ -33,10 +33,15 @@ def stages(tier):
     san = dict(args, points=100)
     return [Stage("manufactured", "p19_manufactured", "plain", {tier: CASES[tier]}, args=args, timeout_per_case=120.0),
             Stage("manufactured-asan", "p19_manufactured", "asan", {tier: ASAN_CASES[tier]}, args=san,
-                  timeout_per_case=120.0, offset=1000000)]
+                  timeout_per_case=120.0, offset=1000000),
+            # every shipped class evaluated by 2..16 threads sharing one object (as the rhs build does) vs sequentially, bit
+            # for bit -- added after the seeded change C19-b (a memoising source term) passed the sequential monitor
+            Stage("concurrent-eval", "p19b_concurrent_eval", "plain", {"quick": 216, "thorough": 2160},
+                  timeout_per_case=120.0, offset=2000000)]
 
 
 THRESHOLDS = {
+    "concurrent_evaluation_equals_sequential": 0.5,   # stage concurrent-eval (boolean, bitwise)
     # -- what the command line selects (booleans)
     "selection_table": 0.5,        # accepted <=> the harness table (factory.h) offers the combination
     "selection_parameters": 0.5,   # Rmax, R0, kappa_eps, delta_e, alpha_jump arrive bit-exactly
